@@ -257,6 +257,7 @@ theorem recvFrame_ctl (c : H2Conn) (f : FrameIn) : AllCtl (recvFrame c f).2 := b
     | continuation sid => exact sendGoaway_ctl _ _
     | pushPromise sid => exact sendGoaway_ctl _ _
     | unknown t => exact AllCtl.nil
+    | contFlood => exact sendGoaway_ctl _ _
 
 /-! ### number of tracked streams -/
 
@@ -475,6 +476,7 @@ theorem recvFrame_len_le (c : H2Conn) (f : FrameIn) (h : c.streams.length ≤ Ex
     | continuation sid => simpa using h
     | pushPromise sid => simpa using h
     | unknown t => exact h
+    | contFlood => simpa using h
 
 theorem passAux_len_le : ∀ (ss : List Strm) (cswin : Int) (budget : Nat),
     (passAux cswin budget ss).streams.length ≤ ss.length := by
